@@ -431,7 +431,7 @@ def _int_boundary_exhaustive(ctx):
 
 
 def run(ctx):
-    n = 6000 if ctx.quick else 60000
+    n = 6000 if ctx.quick else 350000
     if ctx.shard == 0:
         _exhaustive_single_bytes(ctx)
     if ctx.shard == 1 % ctx.nshards:
